@@ -35,6 +35,8 @@ DECLS = {
     "simple": ({"n": "IntType", "s": "StringType"}, None),
     "dotted": ({"a.b": "IntType", "a.c": "IntType"}, None),
     "package": ({"p.x": "IntType"}, "p"),
+    # names declared as plain leaves that bindings later reach through (r.kind bound under a leaf-declared r), next to a dotted declaration
+    "leaf": ({"r": "MapType", "n": "IntType", "a.b": "IntType"}, None),
 }
 SOURCES = [
     ("n + 1", ["plain"]), ("s + '!'", ["plain"]), ("[1, 2, 3].map(x, x * n)", ["plain"]), ("n > 1 ? 'big' : 'small'", ["plain"]), ("n > 0 || 1 / n > 0", ["plain", "failing"]),
@@ -50,6 +52,11 @@ SOURCES = [
     ("[1, 1u, 1.0, true]", ["empty"], "eqv"), ("[1.0, true, 1u, 1]", ["empty"], "eqv"), ("[0.0, -0.0]", ["empty"], "eqv"), ("[-0.0, 0.0]", ["empty"], "eqv"),
     ("{v: 'a'}", ["twins"], "eqv"), ("type(v)", ["twins"], "eqv"), ("v == v ? string(v) : 'ne'", ["twins"], "eqv"), ("double(z) / d", ["zeros"], "eqv"),
     ("v in [1, 2u, 3.0, true]", ["twins"], "eqv"), ("size(w)", ["sized"], "eqv"),
+    # the same built-in name used plainly and overridden by a host function in another program ("override" = built with functions={size, contains})
+    ("size([1, 2, 3]) + n", ["plain"], "ovr"), ("size([1, 2, 3]) + n", ["plain", "override"], "ovr"), ("'abc'.contains('zz') ? n : 0 - n", ["plain"], "ovr"),
+    ("'abc'.contains('zz') ? n : 0 - n", ["plain", "override"], "ovr"), ("[1, 2].size() + size('ab') + n", ["plain", "override"], "ovr"), ("[1, 2].size() + size('ab') + n", ["plain"], "ovr"),
+    # a dotted binding that passes through a name declared (or bound earlier) as a plain value, then the plain binding, and back
+    ("r.kind", ["leafdot"], "leaf"), ("r.kind + '/' + string(n)", ["leafdot"], "leaf"), ("has(r.kind) ? r.kind : 'none'", ["leafdot"], "leaf"), ("a.b + n", ["leafdot"], "leaf"),
     # operands that print alike (str/repr drop sub-second parts) but differ, and the same comparison with the operands swapped
     ("duration('1s') == duration('1s')", ["empty"], "reprs"), ("duration('1500ms') == duration('1s')", ["empty"], "reprs"), ("duration('1500ms') > duration('1s')", ["empty"], "reprs"),
     ("duration('1s') > duration('1500ms')", ["empty"], "reprs"), ("timestamp('2020-01-01T00:00:00Z') == timestamp('2020-01-01T00:00:00Z')", ["empty"], "reprs"),
@@ -68,6 +75,11 @@ BINDINGS = {
     "sized": [{"w": ("string", "\u00e9")}, {"w": ("bytes", b"\xc3\xa9")}, {"w": ("list", (("int", 1),))}, {"w": ("map", ((("int", 1), ("int", 1)),))}, {"w": ("string", "e\u0301")}],
     "durs": [{"da": ("dur", 1000000), "db": ("dur", 1000000)}, {"da": ("dur", 1500000), "db": ("dur", 1000000)}, {"da": ("dur", 1000000), "db": ("dur", 1000001)}, {"da": ("dur", -1), "db": ("dur", 0)}],
     "stamps": [{"ta": ("ts", 1577836800000000), "tb": ("ts", 1577836800000000)}, {"ta": ("ts", 1577836800000001), "tb": ("ts", 1577836800000000)}, {"ta": ("ts", 1577836800000000), "tb": ("ts", 1577836800999999)}],
+    "leafdot": [
+        {"r.kind": ("string", "vm"), "n": ("int", 1), "a.b": ("int", 1)}, {"r": ("map", ((("string", "kind"), ("string", "disk")),)), "n": ("int", 2), "a": ("map", ((("string", "b"), ("int", 2)),))},
+        {"r": ("map", ((("string", "kind"), ("string", "net")),)), "r.kind": ("string", "both"), "n": ("int", 3), "a.b": ("int", 3)}, {"r": ("map", ()), "n": ("int", 4)},
+        {"r.kind": ("string", "again"), "n": ("int", 5), "a": ("map", ((("string", "b"), ("int", 5)),)), "a.b": ("int", 6)},
+    ],
     "twins": [{"v": ("int", 1)}, {"v": ("uint", 1)}, {"v": ("double", 1.0)}, {"v": ("bool", True)}, {"v": ("int", 0)}, {"v": ("double", 0.0)}, {"v": ("double", -0.0)}, {"v": ("bool", False)}, {"v": ("uint", 0)}],
 }
 BAD_SOURCES = ["1 +", "[1, 2", "a..b", "?"]
@@ -116,7 +128,7 @@ class History:
         if host:
             from .. import hostfuncs
 
-            funcs = [hostfuncs.h1, hostfuncs.h2]
+            funcs = {"size": hostfuncs.size, "contains": hostfuncs.contains} if host == "override" else [hostfuncs.h1, hostfuncs.h2]
         try:
             ast = env.compile(src)
             prog = env.program(ast, functions=funcs)
@@ -208,6 +220,10 @@ class History:
 ACTIVE_SOURCES = list(range(len(SOURCES)))
 
 
+def host_flag(kinds):
+    return "override" if "override" in kinds else ("host" in kinds)
+
+
 def pick_source(rnd, declkind, runner):
     while True:
         src, kinds = SOURCES[rnd.choice(ACTIVE_SOURCES)][:2]
@@ -224,14 +240,14 @@ def random_history(acc, zy, rnd, length):
         elif not h.progs or r < 0.35:
             ei = rnd.randrange(len(h.envs))
             src, kinds = pick_source(rnd, h.envs[ei][2], h.envs[ei][1])
-            h.op_program(ei, src, "host" in kinds)
+            h.op_program(ei, src, host_flag(kinds))
         elif r < 0.42:
             h.op_parse_error(rnd.randrange(len(h.envs)))
         else:
             pi = rnd.randrange(len(h.progs))
             prog, ei, src, host = h.progs[pi]
             kinds = next(e[1] for e in SOURCES if e[0] == src)
-            bk = rnd.choice([k for k in kinds if k != "host"] + (["failing"] if rnd.random() < 0.15 else []))
+            bk = rnd.choice([k for k in kinds if k not in ("host", "override")] + (["failing"] if rnd.random() < 0.15 else []))
             h.op_evaluate(pi, dict(rnd.choice(BINDINGS[bk])))
     return h
 
@@ -252,8 +268,8 @@ def systematic(acc, zy, rnd, ctx):
             eis = [h.op_env(r, d) for r, d in combo]
             for ei in eis:
                 dk = h.envs[ei][2]
-                src = {"none": "[1, 2].map(x, x + 1)", "simple": "n + 1", "dotted": "a.b", "package": "x + 1"}[dk]
-                bk = {"none": "empty", "simple": "plain", "dotted": "dotted", "package": "package"}[dk]
+                src = {"none": "[1, 2].map(x, x + 1)", "simple": "n + 1", "dotted": "a.b", "package": "x + 1", "leaf": "r.kind"}[dk]
+                bk = {"none": "empty", "simple": "plain", "dotted": "dotted", "package": "package", "leaf": "leafdot"}[dk]
                 pi = h.op_program(ei, src, False)
                 if pi is not None:
                     h.op_evaluate(pi, dict(BINDINGS[bk][0]))
@@ -293,8 +309,8 @@ def run(ctx):
             hh = History(acc, zy, rnd)
             ei = hh.op_env(rnd.choice("IC"), rnd.choice(list(DECLS)))
             src, kinds = pick_source(rnd, hh.envs[ei][2], hh.envs[ei][1])
-            bk = rnd.choice([k for k in kinds if k != "host"])
-            req = hh.request(ei, src, dict(rnd.choice(BINDINGS[bk])), "host" in kinds)
+            bk = rnd.choice([k for k in kinds if k not in ("host", "override")])
+            req = hh.request(ei, src, dict(rnd.choice(BINDINGS[bk])), host_flag(kinds))
             a, b = zy.ask(req), zygote.fresh_process(req)
             acc.hook("fresh-process-crosscheck")
             if a != b:
